@@ -2,7 +2,7 @@
    name.  This is what is extracted; the correspondence harness calls these
    and nothing else. *)
 From AK Require Import Base.Prelude Base.Sx Bytes.Text Bytes.FabHeader Bytes.BinFile
-  Reader.Select Reader.BoxRead Reader.Level Plotfile.TextHeader Taste.Taste Writers.Colander Writers.Combine Writers.Chef Writers.Chk2plt
+  Reader.Select Reader.BoxRead Reader.Level Plotfile.TextHeader Taste.Taste Reader.ReadSpec Plotfile.Abstract Writers.Colander Writers.ColanderSpec Writers.Combine Writers.Chef Writers.Chk2plt
   Array.Paint Mandoline.Plate Mandoline.Slice3D Mandoline.SlicePlot Whip.Whip Pestle.Pestle Point.PointQuery Menu.Menu Paths.Posix.
 
 Definition as_Zs := as_list as_Z.
@@ -294,6 +294,32 @@ Definition e_colander (s : sx) : sx :=
   | _ => bad_request
   end.
 
+
+(* ---- C05 / C14: the SPECIFICATION side.  request: (gheader (level ...) vars limit)
+   with level = (lvboxes level-layout mins maxs) -> (image of the plotfile,
+   image of the strained plotfile) ---- *)
+Definition dec_plevel (s : sx) : option plevel :=
+  match s with
+  | SL [lb; lv; mins; maxs] =>
+      do lb <- dec_lvboxes lb; do lv <- dec_level lv;
+      do mins <- as_list as_Bs mins; do maxs <- as_list as_Bs maxs;
+      Some {| Abstract.pl_boxes := lb; Abstract.pl_level := lv; Abstract.pl_mins := mins; Abstract.pl_maxs := maxs |}
+  | _ => None
+  end.
+
+Definition e_colander_spec (s : sx) : sx :=
+  match s with
+  | SL [g; lvs; vars; limit] =>
+      req (do g <- dec_gheader g; do lvs <- as_list dec_plevel lvs; do v <- as_Bs vars; do l <- as_optZ limit;
+           Some (g, lvs, v, l))
+          (fun '(g, lvs, v, l) =>
+             let pf := {| pf_g := g; pf_levels := lvs |} in
+             ok (SL [enc_pdisk (pf_disk pf);
+                     of_result enc_pdisk
+                       (match spec_step (v, l) pf with Some pf' => Some (pf_disk pf') | None => None end)]))
+  | _ => bad_request
+  end.
+
 (* ---- C08: mandoline on 2D plotfiles ----
    request: (levels limit fidxs nx ny) -> per field the (ny, nx) array in C
    order as one byte string, then the grid levels; () where a pixel was never
@@ -520,6 +546,8 @@ Definition entries : list (string * (sx -> sx)) :=
     ("taste", e_taste);
     ("taste_all", e_taste_all);
     ("colander", e_colander);
+    ("colander_spec", e_colander_spec);
+   ("colander_spec", e_colander_spec);
     ("plate", e_plate);
     ("whip", e_whip);
     ("pestle", e_pestle);
